@@ -2,6 +2,7 @@
 import ScoresVerif.Driver.Proto
 import ScoresVerif.Gen.Contingency
 import ScoresVerif.Spec.Contingency
+import ScoresVerif.Driver.C09Spec
 
 namespace SV.Driver.C09
 open Lean SV SV.Proto
@@ -13,35 +14,11 @@ def opMetrics : Op := fun j => do
   let total ← fFl j "total"
   pure <| outObj (SV.Gen.Contingency.methodTable.map fun (n, f) => (n, outFl (f id tp tn fp fn total)))
 
-/-- the documented formulas (Spec), keyed by the public method name -/
-def opSpec : Op := fun j => do
-  let tp ← fFl j "tp"; let tn ← fFl j "tn"; let fp ← fFl j "fp"; let fn ← fFl j "fn"
-  let total ← fFl j "total"
-  let S := fun (n : String) (v : Fl) => (n, outFl v)
-  pure <| outObj [
-    S "accuracy" (Spec.Contingency.accuracy tp tn total),
-    S "base_rate" (Spec.Contingency.baseRate tp fn total),
-    S "forecast_rate" (Spec.Contingency.forecastRate tp fp total),
-    S "frequency_bias" (Spec.Contingency.frequencyBias tp fp fn),
-    S "probability_of_detection" (Spec.Contingency.pod tp fn),
-    S "false_alarm_ratio" (Spec.Contingency.falseAlarmRatio tp fp),
-    S "false_alarm_rate" (Spec.Contingency.pofd tn fp),
-    S "success_ratio" (Spec.Contingency.successRatio tp fp),
-    S "threat_score" (Spec.Contingency.threatScore tp fp fn),
-    S "peirce_skill_score" (Spec.Contingency.peirce tp tn fp fn),
-    S "specificity" (Spec.Contingency.specificity tn fp),
-    S "negative_predictive_value" (Spec.Contingency.npv tn fn),
-    S "f1_score" (Spec.Contingency.f1 tp fp fn),
-    S "equitable_threat_score" (Spec.Contingency.ets tp fp fn total),
-    S "heidke_skill_score" (Spec.Contingency.hss tp tn fp fn total),
-    S "odds_ratio" (Spec.Contingency.oddsRatio tp tn fp fn),
-    S "odds_ratio_skill_score" (Spec.Contingency.orss tp tn fp fn)]
-
 def opMaps : Op := fun j => do
   let f ← fFl j "fcst"; let o ← fFl j "obs"
   pure <| outObj [("tp", outFl (SV.Gen.Contingency.map_tp f o)), ("tn", outFl (SV.Gen.Contingency.map_tn f o)),
                   ("fp", outFl (SV.Gen.Contingency.map_fp f o)), ("fn", outFl (SV.Gen.Contingency.map_fn f o))]
 
-def ops : OpTable := [("c09.metrics", opMetrics), ("c09.spec", opSpec), ("c09.maps", opMaps)]
+def ops : OpTable := [("c09.metrics", opMetrics), ("c09.spec", SV.Driver.C09Spec.opSpec), ("c09.maps", opMaps)]
 
 end SV.Driver.C09
